@@ -80,7 +80,7 @@ func runFuncs(cfg *RunCfg, keys []string) int {
 		}
 		for _, o := range r.Obligations {
 			fmt.Printf("   %-14s %-70s inst=%d %s %.2fs %v\n", o.Status, o.Name, len(o.Instances), o.Solver, o.TimeS, o.Props)
-			if o.Status == "failed" || o.Status == "undecided" || o.Status == "cover-failed" {
+			if o.Status == "failed" || o.Status == "undecided" || o.Status == "cover-failed" || o.Status == "engine-error" {
 				if rc == 0 {
 					rc = 1
 				}
@@ -397,6 +397,8 @@ func checkProperty(cfg *RunCfg, prog *Program, id string, start time.Time) (int,
 				if len(samples) < 4 && o.SMTFile != "" && direct[r.Key] {
 					samples = append(samples, map[string]interface{}{"obligation": o.Name, "kind": o.Kind, "clause": o.Desc, "goal": short(o.Instances[0].Goal), "path_facts": len(o.Instances[0].PC), "answer": "unsat", "backend": o.Solver})
 				}
+			case "engine-error":
+				engineErrors = append(engineErrors, o.Name+": malformed SMT query: "+o.Output)
 			case "failed", "undecided":
 				if kf := matchKnown(&known, id, o.Name); kf != "" {
 					knownHit = append(knownHit, kf)
